@@ -5,11 +5,12 @@ package dilithium
 // Hook point for the verification harness (build tag "verif"): one event per
 // iteration of the signing loop. exit: 0 accept, 1 z too large, 2 w0 too
 // large, 3 ct0 too large, 4 too many hints; 12 / 13: the w0 / ct0 test was
-// passed (w0 resp. h hold the tested vector). A nil hook changes nothing.
+// passed (w0 resp. h hold the tested vector). c is the challenge seed of the
+// iteration. A nil hook changes nothing.
 
-var VerifSignHook func(exit int, nonce uint16, z *[L]VerifPoly, w0, h *[K]VerifPoly, hints uint)
+var VerifSignHook func(exit int, nonce uint16, c []uint8, z *[L]VerifPoly, w0, h *[K]VerifPoly, hints uint)
 
-func verifSignEvent(exit int, nonce uint16, z *polyVecL, w0, h *polyVecK, hints uint) {
+func verifSignEvent(exit int, nonce uint16, c []uint8, z *polyVecL, w0, h *polyVecK, hints uint) {
 	if VerifSignHook == nil {
 		return
 	}
@@ -22,5 +23,7 @@ func verifSignEvent(exit int, nonce uint16, z *polyVecL, w0, h *polyVecK, hints 
 		ww[i] = w0.vec[i].coeffs
 		hh[i] = h.vec[i].coeffs
 	}
-	VerifSignHook(exit, nonce, &zz, &ww, &hh, hints)
+	cc := make([]uint8, len(c))
+	copy(cc, c)
+	VerifSignHook(exit, nonce, cc, &zz, &ww, &hh, hints)
 }
